@@ -10,6 +10,7 @@ import (
 )
 
 type State struct {
+	freshRefs []string // references returned as newly allocated by callees on this path
 	calls   map[string][]*Val // results of the calls made on this path, by site name
 	lits    map[string]bool
 	heapGen int
@@ -40,6 +41,7 @@ func (s *State) clone() *State {
 	for k, v := range s.cells {
 		n.cells[k] = v
 	}
+	n.freshRefs = append([]string(nil), s.freshRefs...)
 	n.calls = make(map[string][]*Val, len(s.calls))
 	for k, v := range s.calls {
 		n.calls[k] = v
